@@ -4,7 +4,8 @@ Proof: Poly/Props/C09.lean — for every history of puts/deletes and every range
 (known / known-absent / unknown), the node list is strictly increasing in bytes.Compare order, forward and
 backward scans are exactly the in-range nodes in order, Seek/First/Last/Next/Prev move a cursor over them,
 util.BytesPrefix bounds exactly the keys with the prefix, Len/Size accounting, Reset empties.
-Tie: correspondence stream `memdb` (harness hkv runs the real MemDB and its dbIter; drv_kv runs the model).
+Tie: correspondence streams `memdb` (harness hkv runs the real MemDB and its dbIter; drv_kv runs the model) and `arena`
+(the real arenas dumped through the verif-tagged accessors MemDB.VerifLevel0/VerifKV against the arena model).
 Search: the harness compares every get / scan / positioning call with a reference kept in a plain Go map.
 """
 
@@ -12,16 +13,19 @@ Search: the harness compares every get / scan / positioning call with a referenc
 def run(ctx):
     ctx.level = "proof"
     ctx.assumptions += [
-        "the skip list is modelled by its level-0 node list (ordered association list); the towers above level 0 are "
-        "search shortcuts whose agreement with the level-0 order is exercised by the correspondence, not proved",
+        "two models: the level-0 node list (ordered association list) and the concrete arenas (kvData/nodeData offsets, level-0 "
+        "pointers) which is proved to refine it for every height oracle; the towers above level 0 are search shortcuts whose "
+        "agreement with the level-0 walk is exercised by the correspondence, not proved (the arena model searches level 0)",
         "byte slices are modelled as values: aliasing of the kvData arena (returned slices stay valid until Reset) is not modelled",
         "iterators are not used across Reset (the arenas are truncated and reused); the harness releases them first",
     ]
-    ctx.cov["trusted_base"] += ["harness hkv/memdb + drv_kv (correspondence check)", "Lean compiler for the driver"]
+    ctx.cov["trusted_base"] += ["harness hkv/memdb + hkv/arena + drv_kv (correspondence check)", "verif hook overlaydb/memdb_verif.go (read-only accessors)", "Lean compiler for the driver"]
     ctx.lean_props()
     hbin = ctx.build_harness("hkv")
     drv = ctx.build_driver("drv_kv")
     if hbin:
         res = ctx.correspondence("memdb", hbin, ["memdb"], drv, ["memdb"])
         ctx.judge(res, theorem_hint="Poly.Props.C09.* (model MemDB/Iter no longer matches overlaydb.MemDB/dbIter)")
+        res = ctx.correspondence("arena", hbin, ["arena"], drv, ["arena"])
+        ctx.judge(res, theorem_hint="Poly.Props.C09.arena_refines_omap (arena model no longer matches MemDB's kvData/nodeData level-0 layout)")
     ctx.judge_lean()
